@@ -33,6 +33,9 @@ type SpecCtx struct {
 	entryCtx *SpecCtx // loop invariants: the state on entry to the loop, for entry(e)
 	sides  *[]*Term // typing facts of memory cells read while evaluating
 	assume bool     // the formula being evaluated sits in an assumed (positive-hypothesis) position
+	clamp  bool     // recursive spec bodies: integer cells are clamped into their type's range
+	guards []*Term  // antecedents on the path from the clause root (for lazy instantiation)
+	guard  *Term    // reachability guard under which the clause is assumed
 }
 
 // goal evaluates a clause that is to be proved: typing facts of the cells it reads are
@@ -200,6 +203,17 @@ func (c *SpecCtx) loadSV(obj, off *Term, T types.Type) SV {
 	out := SV{T: T, L: make([]*Term, lay.N()), Addr: &[2]*Term{obj, off}}
 	for i, lf := range lay.Leaves {
 		out.L[i] = leafOfCell(lf, Select(arr, Add(off, Int(int64(i)))))
+		if c.clamp {
+			// total, well-behaved value whatever the memory holds; equal to the cell for
+			// well-typed memory
+			switch lf.K {
+			case LInt:
+				lo, hi := intRange(lf.B)
+				out.L[i] = Ite(Lt(out.L[i], IntB(lo)), IntB(lo), Ite(Gt(out.L[i], IntB(hi)), IntB(hi), out.L[i]))
+			case LLen, LCap, LOff:
+				out.L[i] = Ite(Lt(out.L[i], Int(0)), Int(0), out.L[i])
+			}
+		}
 	}
 	c.side(typingFacts(Val{T: T, L: out.L}, nil))
 	return out
@@ -471,6 +485,16 @@ func (c *SpecCtx) callBuiltin(e *Expr) SV {
 
 func (c *SpecCtx) specCall(e *Expr) SV {
 	eng := c.tr.eng
+	if rs := c.tr.top.recSpecs[e.Name]; rs != nil {
+		if len(rs.Params) != len(e.Args) {
+			c.fail(e, "@%s expects %d arguments", e.Name, len(rs.Params))
+		}
+		var args []*Term
+		for _, a := range e.Args {
+			args = append(args, c.evalInt(a))
+		}
+		return mathInt(App("rs_"+rs.Name, SInt, args...))
+	}
 	if sf := eng.specs[e.Name]; sf != nil {
 		if len(sf.Params) != len(e.Args) {
 			c.fail(e, "@%s expects %d arguments", e.Name, len(sf.Params))
@@ -533,7 +557,17 @@ func (c *SpecCtx) binary(e *Expr) SV {
 			lc = &n
 		}
 		a := lc.evalBool(e.Args[0])
-		b := c.evalBool(e.Args[1])
+		rc := c
+		if op == "==>" {
+			n := *c
+			n.guards = append(append([]*Term{}, c.guards...), a)
+			rc = &n
+		} else if op != "&&" {
+			n := *c
+			n.guards = append(append([]*Term{}, c.guards...), tFalse) // no lazy instances below || and <==>
+			rc = &n
+		}
+		b := rc.evalBool(e.Args[1])
 		switch op {
 		case "&&":
 			return mathBool(And(a, b))
@@ -666,11 +700,34 @@ func (c *SpecCtx) quant(e *Expr) SV {
 		}
 		rng = And(cs...)
 	}
+	// small constant ranges are expanded: no quantifier, no instantiation problem
+	if e.Args[0] != nil && len(vars) == 1 {
+		lo, hi := c.evalInt(e.Args[0]).IntConst(), c.evalInt(e.Args[1]).IntConst()
+		if lo != nil && hi != nil && lo.IsInt64() && hi.IsInt64() && hi.Int64()-lo.Int64() <= 80 {
+			var parts []*Term
+			for k := lo.Int64(); k < hi.Int64(); k++ {
+				m := *c
+				m.bound = map[string]SV{}
+				for kk, v := range c.bound {
+					m.bound[kk] = v
+				}
+				m.bound[e.Vars[0]] = mathInt(Int(k))
+				parts = append(parts, m.evalBool(e.Args[2]))
+			}
+			if e.Op == "forall" {
+				return mathBool(And(parts...))
+			}
+			return mathBool(Or(parts...))
+		}
+	}
 	var sides []*Term
 	n.sides = &sides
 	body := n.evalBool(e.Args[2])
 	if e.Op == "forall" {
 		if c.assume {
+			if e.Args[0] != nil && len(vars) == 1 && c.tr != nil && c.tr.top != nil {
+				c.registerLazy(e)
+			}
 			return mathBool(Forall(vars, Implies(rng, And(And(sides...), body))))
 		}
 		return mathBool(Forall(vars, Implies(And(rng, And(sides...)), body)))
@@ -689,7 +746,19 @@ func (c *SpecCtx) quant(e *Expr) SV {
 		}
 		m.bound[e.Vars[0]] = mathInt(Sub(hi, Int(1)))
 		inst := m.evalBool(e.Args[2])
-		return mathBool(Or(And(Lt(lo, hi), inst), ex))
+		alts := []*Term{And(Lt(lo, hi), inst)}
+		// further witness hints: index terms the code itself used
+		for _, cand := range c.tr.top.idxCands {
+			m2 := *c
+			m2.bound = map[string]SV{}
+			for k, v := range c.bound {
+				m2.bound[k] = v
+			}
+			m2.bound[e.Vars[0]] = mathInt(cand)
+			alts = append(alts, And(Le(lo, cand), Lt(cand, hi), m2.evalBool(e.Args[2])))
+		}
+		alts = append(alts, ex)
+		return mathBool(Or(alts...))
 	}
 	return mathBool(ex)
 }
@@ -733,15 +802,22 @@ func svOf(v Val) SV { return SV{T: v.T, L: v.L} }
 
 // calleeCtx binds a callee's parameter and result names to actual values.
 func (tr *FnTr) calleeCtx(f *ssa.Function, args []Val, results []Val, st, old State) *SpecCtx {
+	return tr.calleeCtxInfo(infoOf(tr.eng, f), args, results, st, old)
+}
+
+func (tr *FnTr) calleeCtxInfo(f *calleeInfo, args []Val, results []Val, st, old State) *SpecCtx {
 	names := map[string]SV{}
-	for i, p := range f.Params {
+	for i, p := range f.params {
 		if i < len(args) {
-			names[p.Name()] = svOf(args[i])
-			names[p.Name()+"0"] = svOf(args[i])
+			if p != "" && p != "_" {
+				names[p] = svOf(args[i])
+				names[p+"0"] = svOf(args[i])
+			}
+			names[fmt.Sprintf("arg%d", i)] = svOf(args[i])
 		}
 	}
 	if results != nil {
-		sig := f.Signature
+		sig := f.sig
 		for i := 0; i < sig.Results().Len() && i < len(results); i++ {
 			if n := sig.Results().At(i).Name(); n != "" && n != "_" {
 				names[n] = svOf(results[i])
@@ -766,7 +842,7 @@ func (tr *FnTr) specCtxAt(st State, phis map[*ssa.Phi]Val, b *ssa.BasicBlock) *S
 			// range loops: at the header the key variable denotes the index of the next
 			// iteration, i.e. the number of completed iterations
 			if p.Comment == "rangeindex" && p.Block() == b {
-				if l := tr.hdrLoop[b]; l != nil && l.keyName == name {
+				if l := tr.hdrLoop[b]; l != nil && (l.keyName == name || name == "iter") {
 					return SV{T: v.T, L: []*Term{Add(v.L[0], Int(1))}}, true
 				}
 			}
@@ -870,4 +946,41 @@ func (tr *FnTr) localAt(name string, b *ssa.BasicBlock) (SV, bool) {
 		}
 	}
 	return SV{}, false
+}
+
+// registerLazy: an assumed bounded forall is additionally instantiated at every index term
+// the code uses (E-matching on arithmetic index terms is unreliable).
+func (c *SpecCtx) registerLazy(e *Expr) {
+	cc := *c
+	cc.bound = map[string]SV{}
+	for k, v := range c.bound {
+		cc.bound[k] = v
+	}
+	guards := append([]*Term{}, c.guards...)
+	for _, g := range guards {
+		if g.IsFalse() {
+			return
+		}
+	}
+	if c.guard != nil {
+		guards = append(guards, c.guard)
+	}
+	top := c.tr.top
+	inst := func(t *Term) *Term {
+		m := cc
+		m.bound = map[string]SV{}
+		for k, v := range cc.bound {
+			m.bound[k] = v
+		}
+		var sides []*Term
+		m.sides = &sides
+		m.bound[e.Vars[0]] = mathInt(t)
+		lo, hi := m.evalInt(e.Args[0]), m.evalInt(e.Args[1])
+		body := m.evalBool(e.Args[2])
+		return Implies(And(And(guards...), Le(lo, t), Lt(t, hi)), And(And(sides...), body))
+	}
+	top.lazy = append(top.lazy, inst)
+	for _, t := range top.idxCands {
+		top.vc.Assume(inst(t))
+	}
 }
